@@ -21,7 +21,7 @@
 (* invariants are evaluated on the adopted state, so that a divergence is  *)
 (* attributed to the property it breaks and not to the model.              *)
 (***************************************************************************)
-EXTENDS PubSubCore, Json, IOUtils
+EXTENDS PubSubCore, Names, Json, IOUtils
 
 CONSTANTS
     MinWait,    \* shortest wait after which a blocking Pull may return empty
@@ -178,10 +178,45 @@ TokAfter(p, e, W, kinds) ==
          ELSE Put(tok, e.body.next, (CHOOSE w \in evs : TRUE).next)
     ELSE tok
 
+(***************************************************************************)
+(* Malformed requests (C17): recorded when the scenario is an inputs       *)
+(* scenario (the characters of every name field are in the inv event).     *)
+(***************************************************************************)
+StateChangingKinds == {"m.ct", "m.cs", "m.rs", "m.rt", "t.accept", "t.attach", "t.remove", "t.delete",
+                       "s.post", "s.ack", "s.mod", "s.del0", "s.del1", "r.set"}
+ChangesState(W) == \E w \in W : w.k \in StateChangingKinds \/ (w.k = "s.pull" /\ w.out # <<>>)
+
+HasChars(p, f) == (f \o "_chars") \in DOMAIN p /\ ~p[f \o "_long"]
+BadTopicField(p, f) == HasChars(p, f) /\ ~IsTopicName(p[f \o "_chars"])
+BadSubField(p, f) == HasChars(p, f) /\ ~IsSubName(p[f \o "_chars"])
+MalformedName(p) ==
+    CASE p.op \in {"CreateTopic", "GetTopic", "DeleteTopic"} -> BadTopicField(p, "name")
+      [] p.op \in {"Publish", "ListTopicSubs"} -> BadTopicField(p, "topic")
+      [] p.op = "CreateSub" -> BadSubField(p, "name") \/ BadTopicField(p, "topic")
+      [] p.op \in {"GetSub", "DeleteSub"} -> BadSubField(p, "name")
+      [] p.op \in {"Pull", "Ack", "ModAck", "StreamOpen"} -> BadSubField(p, "sub")
+      [] OTHER -> FALSE
+
+MalGuards(c, e) ==
+    LET p == pend[c].e
+        W == Win(c) IN
+    { \* a malformed resource name is rejected with INVALID_ARGUMENT
+      G("C17", MalformedName(p) => e.code = "INVALID_ARGUMENT"),
+      \* a rejected request changes no state
+      G("C17", (Solo(c) /\ e.code = "INVALID_ARGUMENT") => ~ChangesState(W)),
+      \* never a broken connection
+      G("C17", Solo(c) => e.code \notin {"UNAVAILABLE", "UNKNOWN", "CANCELLED"}),
+      \* page tokens: undecodable ones are rejected, decodable ones (issued or not) give a page
+      G("C17", ("token_decodable" \in DOMAIN p /\ ~p.token_decodable) => e.code = "INVALID_ARGUMENT"),
+      G("C13", ("token_decodable" \in DOMAIN p /\ p.token_decodable /\ p.size >= 0 /\ ~MalformedName(p))
+                  => e.code \in {"OK", "NOT_FOUND"}) }
+
 RetGuards(c, e) ==
     LET p == pend[c].e
         W == Win(c)
     IN
+    MalGuards(c, e) \cup
+    IF MalformedName(p) THEN {} ELSE
     CASE p.op = "CreateTopic" ->
         { G("C10", e.code \in {"OK", "ALREADY_EXISTS"}),
           G("C10", e.code = "OK" => ((\E w \in W : w.k = "m.ct" /\ w.name = p.name /\ w.ok) /\ e.body.name = p.name)),
@@ -263,6 +298,7 @@ RetGuards(c, e) ==
         { G("C10", e.code = "NOT_FOUND" => (None \in SubLookups(W, p.sub) \/ RacedDeletion(W, p.sub))),
           G("C17", e.code = "INVALID_ARGUMENT" <=> ~AcksAreInts(p)),
           G("C02", e.code = "OK" => \E w \in W : w.k = "s.ack" /\ w.si \in SubLookups(W, p.sub) /\ w.acks = p.acks),
+          G("C17", (e.code = "INVALID_ARGUMENT" /\ Solo(c)) => ~\E w \in W : w.k = "s.ack"),
           G("C12", e.code \notin {"OK", "NOT_FOUND", "INVALID_ARGUMENT"} => RacedDeletion(W, p.sub)) }
       [] p.op = "ModAck" ->
         { G("C10", e.code = "NOT_FOUND" => (None \in SubLookups(W, p.sub) \/ RacedDeletion(W, p.sub))),
@@ -440,6 +476,11 @@ EvGuards(e) ==
               \* a stream on a deleted subscription ends with NOT_FOUND, never silently
               G("C12", (e.opened /\ RacedDeletion(W, p.sub)) => e.code = "NOT_FOUND"),
               G("C12", e.opened => e.code # "EOS"),
+              \* malformed first request / malformed control message: the stream ends with INVALID_ARGUMENT
+              G("C17", (~e.opened /\ (BadSubField(p, "sub") \/ p.max > 65535 \/ p.max < 0)) => e.code = "INVALID_ARGUMENT"),
+              G("C17", (e.opened /\ pend[e.c].ctrl # <<>> /\ pend[e.c].ctrl[Len(pend[e.c].ctrl)].mal
+                          /\ ~RacedDeletion(W, p.sub)) => e.code = "INVALID_ARGUMENT"),
+              G("C17", e.code \notin {"UNAVAILABLE", "UNKNOWN"}),
               G("C12", (e.opened /\ RacedDeletion(W, p.sub)) => ReleasedPromptly(W, p.sub, e.t)) }
       [] e.k = "ret" -> IF e.c \in DOMAIN pend THEN RetGuards(e.c, e) ELSE { G("BIND", FALSE) }
       [] e.k \in {"cancel", "lret"} -> {}
@@ -529,7 +570,10 @@ EvApply(e) ==
            [] e.k \in {"cancel", "send", "lret"} -> IF e.c \in DOMAIN pend THEN Without(pend, e.c) ELSE pend
            [] e.k = "ssend" ->
                  IF e.c \in DOMAIN pend
-                 THEN [pend EXCEPT ![e.c].ctrl = Append(@, [t |-> e.t, acks |-> e.acks, mods |-> e.mods, secs |-> e.secs])]
+                 THEN [pend EXCEPT ![e.c].ctrl = Append(@, [t |-> e.t, acks |-> e.acks, mods |-> e.mods, secs |-> e.secs,
+                                                               mal |-> (e.bad > 0 \/ e.rsub # "" \/ e.rmax > 0 \/ e.rmaxb > 0
+                                                                          \/ Len(e.secs) # Len(e.mods)
+                                                                          \/ \E i \in 1..Len(e.secs) : e.secs[i] < 0)])]
                  ELSE pend
            [] OTHER -> pend
     /\ tok' =
